@@ -102,10 +102,12 @@ def correspond(ctx):
       # the model, replaying the ENGINE's undo list, does not get back to the start: the engine oracle must agree
       eng = [i for i in res['issues'] if i['prop'] == 'C01' and i['replay'].get('bundle') == meta['bundle']]
       uses_replace = 'ReplaceTableData' in meta['kinds']
-      if not eng and not uses_replace:
-        ctx.broken('correspondence:model undo replay fails where the engine undo succeeds',
+      if not eng and not uses_replace and code & K.B_MUNDO_DATA:
+        # the undo list, as plain doc actions, does not even restore schema / row ids / data cells, yet the engine
+        # ends in the start document (formula cells alone may be repaired by the recalculation after the undo)
+        ctx.broken('correspondence:model undo replay fails on data cells where the engine undo succeeds',
                    json.dumps({'history': meta['history'], 'bundle': meta['bundle']}, default=repr)[:1500])
-      ctx.bump('model-undo-replay-fails')
+      ctx.bump('model-undo-replay-differs' + ('' if code & K.B_MUNDO_DATA else ':formula-cells-only(recalculated by the engine)'))
   for s in res['samples'][:3]:
     ctx.samples.append(s)
   if n_sc:
@@ -124,12 +126,13 @@ def report_issue(ctx, issue, shrink=True):
       pass
   elif rep.get('history') is not None and rep.get('bundle') is not None and shrink:
     try:
-      by_code = kind.endswith(':recalculation-after-undo')
-      h, b = K.shrink_issue(rep['history'], rep['bundle'], issue['prop'], 'undo-does-not-restore' if by_code else kind)
+      by_code = kind.endswith((':recalculation-after-undo', ':formula-cells-only'))
+      h, b = K.shrink_issue(rep['history'], rep['bundle'], issue['prop'],
+                               ('undo-does-not-restore', 'undo-does-not-restore:formula-cells-only') if by_code else kind)
       if by_code:
-        probe = {'kind': 'undo-does-not-restore'}
-        K.refine_with_code(probe, K.code_of_bundle(ctx, h, b))
-        if probe['kind'] != kind:
+        issues3, _ = K.check_bundle(K.build(h), copy.deepcopy(b))
+        kinds3 = {k3 for p3, k3, _w in issues3 if p3 == PROP}
+        if not kinds3 & {'undo-does-not-restore', 'undo-does-not-restore:formula-cells-only'}:
           h, b = rep['history'], rep['bundle']
       rep = {'history': h, 'bundle': b, 'kind': kind}
     except Exception:
@@ -166,7 +169,7 @@ def search(ctx):
       issues2, _ = K.check_bundle(K.build(w['history']), copy.deepcopy(w['bundle']))
       for p, k, what in issues2:
         if p == PROP:
-          if k == 'undo-does-not-restore':
+          if k in ('undo-does-not-restore', 'undo-does-not-restore:formula-cells-only'):
             probe = {'kind': k}
             K.refine_with_code(probe, K.code_of_bundle(ctx, w['history'], w['bundle']))
             k = probe['kind']
@@ -188,8 +191,8 @@ def _removed_table_new_row(violation, entry):
 
 
 def _recalculation(violation, entry):
-  return violation.get('kind') in ('undo-does-not-restore:recalculation-after-undo', 'history-undo-differs:formula-cells-only')
+  return violation.get('kind') in ('undo-does-not-restore:recalculation-after-undo', 'undo-does-not-restore:formula-cells-only',
+                                   'history-undo-differs:formula-cells-only')
 
 
 MATCHERS = {'removed_table_new_row': _removed_table_new_row, 'recalculation': _recalculation}
-DISABLED = True
